@@ -146,22 +146,22 @@ Proof.
   unfold ItPos, entry_iterate. cbn. repeat split; apply vpos_vconst; exact H.
 Qed.
 
-Theorem setup_posinv K ident j S n p m B sv :
-  SettingsOK S -> setup K ident j S n p m B = Ok sv -> PosInv sv.
+Theorem setup_posinv K ident sq j S n p m B sv :
+  SettingsOK S -> setup K ident sq j S n p m B = Ok sv -> PosInv sv.
 Proof.
   intros HS E. unfold setup in E. destruct (b_P B); [|discriminate]. destruct (b_c B); [|discriminate]. cbv zeta in E.
   repeat match type of E with context [match ?x with pair _ _ => _ end] => destruct x end.
-  destruct (scale_data K _ _ _ _ _) as [[pc d]|]; cbn [bind] in E; [|discriminate].
+  destruct (scale_data K _ _ _ _ _ _) as [[pc d]|]; cbn [bind] in E; [|discriminate].
   destruct (kkt_init d _ _ j) as [k|] eqn:Ek; cbn [bind] in E; [|discriminate].
   injection E as <-. unfold PosInv. cbn. split; [exact HS|]. split.
   - unfold kkt_init in Ek. apply update_kkt_fields in Ek. destruct Ek as (_ & _ & _ & _ & _ & _ & _ & ->). cbn. apply HS.
   - intros _. apply (kkt_init_ok _ _ _ _ _ Ek).
 Qed.
 
-Theorem update_posinv K sv B reuse sv' : PosInv sv -> update K sv B reuse = Ok sv' -> PosInv sv'.
+Theorem update_posinv K sq sv B reuse sv' : PosInv sv -> update K sq sv B reuse = Ok sv' -> PosInv sv'.
 Proof.
   intros (HS & Hk & _) E. rewrite update_split in E.
-  destruct (update_data K sv B reuse) as [[pc d]|]; cbn [bind] in E; [|discriminate].
+  destruct (update_data K sq sv B reuse) as [[pc d]|]; cbn [bind] in E; [|discriminate].
   destruct (kkt_update_data d (sv_kkt sv) _ _ _) as [k|] eqn:Ek; cbn [bind] in E; [|discriminate].
   injection E as <-. apply kkt_update_data_arrays in Ek. destruct Ek as (_ & _ & _ & _ & Ed).
   unfold PosInv. cbn. rewrite Ed. split; [exact HS|]. split; [exact Hk|discriminate].
@@ -231,20 +231,21 @@ Definition pos_inv (st : option Solver) : Prop := match st with Some sv => PosIn
 Section Hist.
 Variable K : Consts.
 Variable ident : bool.
+Variable sparse_pc : bool.
 Variable cp_bits : Z.
 Variable fault : nat -> bool.
 Hypothesis SK : sane_consts K.
 Hypothesis CK : ConstsOK K.
 
 Lemma step_posinv j dims st op st' o :
-  st_inv dims st -> pos_inv st -> ops_valid [op] -> step K ident cp_bits fault j st op = Ok (st', o) -> pos_inv st'.
+  st_inv dims st -> pos_inv st -> ops_valid [op] -> step K ident sparse_pc cp_bits fault j st op = Ok (st', o) -> pos_inv st'.
 Proof.
   intros HI HPi HV E. destruct op as [S0 n p m B|B r|]; cbn in HV, E.
-  - destruct (setup K ident j S0 n p m B) as [sv|] eqn:Es; cbn [bind] in E; [|destruct st; discriminate].
+  - destruct (setup K ident sparse_pc j S0 n p m B) as [sv|] eqn:Es; cbn [bind] in E; [|destruct st; discriminate].
     assert (E' : Ok (Some sv, obs_of sv None) = Ok (st', o)) by (destruct st; exact E).
     injection E' as <- _. cbn. eapply setup_posinv; [apply HV|exact Es].
   - destruct st as [sv|]; [|discriminate].
-    destruct (update K sv B r) as [sv'|] eqn:Eu; cbn [bind] in E; [|discriminate]. injection E as <- _. cbn.
+    destruct (update K sparse_pc sv B r) as [sv'|] eqn:Eu; cbn [bind] in E; [|discriminate]. injection E as <- _. cbn.
     eapply update_posinv; eauto.
   - destruct st as [sv|]; [|discriminate]. destruct dims as [[[n p] m]|]; [|contradiction].
     destruct (solve K j cp_bits fault sv) as [[sv' stt]|] eqn:Eu; cbn [bind] in E; [|discriminate]. injection E as <- _. cbn.
@@ -252,7 +253,7 @@ Proof.
 Qed.
 
 Theorem delta_ok_of_valid_settings j ops : forall dims st,
-  st_inv dims st -> pos_inv st -> ops_ok dims ops -> ops_valid ops -> delta_ok K ident cp_bits fault j st ops.
+  st_inv dims st -> pos_inv st -> ops_ok dims ops -> ops_valid ops -> delta_ok K ident sparse_pc cp_bits fault j st ops.
 Proof.
   induction ops as [|op t IH]; intros dims st HI HPi HO HV; cbn [delta_ok]; [exact I|].
   assert (HO1 : ops_ok dims [op] /\ ops_ok (dims_after dims op) t).
@@ -262,18 +263,18 @@ Proof.
   destruct HO1 as [HO1 HOt]. destruct HV1 as [HV1 HVt].
   split.
   - destruct op; try exact I. destruct st as [sv|]; [|exact I]. apply HPi.
-  - destruct (step K ident cp_bits fault j st op) as [[st' o]|] eqn:E; [|exact I].
+  - destruct (step K ident sparse_pc cp_bits fault j st op) as [[st' o]|] eqn:E; [|exact I].
     apply (IH (dims_after dims op)); try assumption.
-    + eapply (step_inv K ident cp_bits fault SK); eauto.
+    + eapply (step_inv K ident sparse_pc cp_bits fault SK); eauto.
     + eapply step_posinv; eauto.
 Qed.
 
 (* T1 for every history with settings satisfying the hypotheses of the interior-point theorems *)
 Theorem junk_independence_valid_settings j1 j2 ops :
   ops_ok None ops -> ops_valid ops ->
-  run K ident cp_bits fault j1 None ops = run K ident cp_bits fault j2 None ops.
+  run K ident sparse_pc cp_bits fault j1 None ops = run K ident sparse_pc cp_bits fault j2 None ops.
 Proof.
-  intros HO HV. apply (junk_independence_fresh K ident cp_bits fault SK j1 j2 ops HO).
+  intros HO HV. apply (junk_independence_fresh K ident sparse_pc cp_bits fault SK j1 j2 ops HO).
   apply (delta_ok_of_valid_settings j1 ops None None); auto; exact I.
 Qed.
 
